@@ -131,6 +131,79 @@ func widthRule(c *core.Ctx, rel, typ, meth string) {
 	d := size.Add(want, -1)
 	c.Decide(d.IsConst() && d.C == 0, "C16-WIDTH", key+"#size", pos, "buffer size == emitted length field + 4 ("+size.String()+")",
 		fmt.Sprintf("the buffer has %s octets but the emitted length field is %s: the length field disagrees with the number of value octets emitted", size, lenVal))
+	// layout of the triplet: tag at +0, length at +2, the value copied at +4 - what the four parsers read back
+	{
+		fieldOf := func(v ssa.Value) string {
+			v = stripConv(v)
+			switch x := v.(type) {
+			case *ssa.UnOp:
+				if _, f, ok := fieldOfAddr(x.X); ok && x.Op == token.MUL {
+					return f.Name()
+				}
+			case *ssa.Field:
+				if st, ok := x.X.Type().Underlying().(*types.Struct); ok {
+					return st.Field(x.Field).Name()
+				}
+			}
+			return "?"
+		}
+		offIn := func(v ssa.Value) (int64, bool) {
+			if v == ssa.Value(mk) {
+				return 0, true
+			}
+			sl, ok := v.(*ssa.Slice)
+			if !ok || sl.X != ssa.Value(mk) {
+				return 0, false
+			}
+			if sl.Low == nil {
+				return 0, true
+			}
+			return constInt(sl.Low)
+		}
+		got := map[int64]string{}
+		var lp []string
+		for _, pc := range put {
+			off, ok := offIn(pc.Call.Args[1])
+			if !ok {
+				lp = append(lp, "a 16-bit field is not written at a constant offset of the buffer")
+				continue
+			}
+			got[off] = fieldOf(pc.Call.Args[2])
+		}
+		if got[0] != "tag" || got[2] != "length" {
+			lp = append(lp, fmt.Sprintf("the 16-bit fields are written as %v, expected tag at +0 and length at +2", got))
+		}
+		nCopy := 0
+		for _, b := range sf.Blocks {
+			for _, ins := range b.Instrs {
+				call, ok := ins.(*ssa.Call)
+				if !ok {
+					continue
+				}
+				if bi, ok := call.Call.Value.(*ssa.Builtin); !ok || bi.Name() != "copy" {
+					continue
+				}
+				off, ok := offIn(call.Call.Args[0])
+				if !ok {
+					continue
+				}
+				nCopy++
+				if off != 4 || fieldOf(call.Call.Args[1]) != "value" {
+					lp = append(lp, fmt.Sprintf("the value is copied from %s to offset %d, expected the value field at +4", fieldOf(call.Call.Args[1]), off))
+				}
+			}
+		}
+		if nCopy != 1 {
+			lp = append(lp, fmt.Sprintf("%d copies into the buffer, expected exactly one (the value)", nCopy))
+		}
+		// the buffer returned is the buffer written
+		for _, b := range sf.Blocks {
+			if ret, ok := b.Instrs[len(b.Instrs)-1].(*ssa.Return); ok && (len(ret.Results) != 1 || ret.Results[0] != ssa.Value(mk)) {
+				lp = append(lp, "the method does not return the buffer it filled")
+			}
+		}
+		c.Decide(len(lp) == 0, "C16-WIDTH", key+"#layout", pos, "tag@+0 length@+2 value@+4, one buffer", strings.Join(uniq(lp), "; "))
+	}
 	// typed range check on the definition of the size (SSA, so named locals and constants are followed)
 	wrap := ssaRangeCheck(mk.Len)
 	c.Decide(wrap == "", "C16-WIDTH", key+"#nowrap", pos, "size arithmetic cannot wrap", "size arithmetic can wrap: "+wrap)
@@ -537,6 +610,64 @@ func sliceParserRule(c *core.Ctx, fn *ssa.Function, sums []parserSummary) {
 			problems = append(problems, "no refusal of a truncated entry found")
 		}
 	}
+	// the cursor: starts at the beginning of the input, advances by 4+length per entry, and an error is returned only
+	// while at least one octet is left (a clean end of input is success)
+	if ok1 && ok2 && src1 == src2 && fields["length"] != nil {
+		vlen := p.LinOf(stripConv(fields["length"]))
+		step := prover.Const(4).Add(vlen, 1)
+		switch root := src1.(type) {
+		case *ssa.Phi: // the input is consumed by re-slicing: data = data[4+l:]
+			for i, pred := range root.Block().Preds {
+				r, off := origin(root.Edges[i], 0)
+				if root.Block().Dominates(pred) {
+					d := off.Add(tagOff, -1).Add(step, -1)
+					if r != ssa.Value(root) || !d.IsConst() || d.C != 0 {
+						problems = append(problems, "the input is not advanced by exactly 4+length octets per entry ("+d.String()+")")
+					}
+				} else if _, isP := r.(*ssa.Parameter); !isP || !off.IsConst() || off.C != 0 {
+					problems = append(problems, "parsing does not start at the first octet of the input")
+				}
+			}
+		default: // an index cursor into the input
+			var cur *ssa.Phi
+			for _, b := range fn.Blocks {
+				for _, ins := range b.Instrs {
+					if ph, isPhi := ins.(*ssa.Phi); isPhi && isIntType(ph.Type()) {
+						d := p.LinOf(ph).Add(tagOff, -1)
+						if d.IsConst() && d.C == 0 {
+							cur = ph
+						}
+					}
+				}
+			}
+			if cur == nil {
+				problems = append(problems, "no cursor found: the tag is not read at a loop-carried offset")
+				break
+			}
+			for i, pred := range cur.Block().Preds {
+				e := cur.Edges[i]
+				if cur.Block().Dominates(pred) {
+					d := p.LinOf(e).Add(p.LinOf(cur), -1).Add(step, -1)
+					if !d.IsConst() || d.C != 0 {
+						problems = append(problems, "the cursor is not advanced by exactly 4+length octets per entry (difference "+d.String()+"): the next entry is read from inside this one or beyond the next")
+					}
+				} else if k, isK := constInt(e); !isK || k != 0 {
+					problems = append(problems, "parsing does not start at the first octet of the input")
+				}
+			}
+		}
+		ln := p.LenOf(src1)
+		for _, b := range fn.Blocks {
+			ret, isR := b.Instrs[len(b.Instrs)-1].(*ssa.Return)
+			if !isR || len(ret.Results) != 2 || paths.IsNilConst(ret.Results[1]) {
+				continue
+			}
+			// len - tagOff - 1 >= 0
+			if okL, _ := p.Prove(b, ln.Add(tagOff, -1).Add(prover.Const(1), -1), nil); !okL {
+				problems = append(problems, "an error is returned at "+c.Prog.Pos(ret.Pos())+" although the input may be exhausted exactly: a well-formed sequence that ends cleanly is refused")
+			}
+		}
+	}
 	// partial entry => error, clean end => success: every return inside the loop returns a nil container
 	if len(problems) == 0 {
 		c.OK("C16-AGREE", key+"~smgp.ReadOptions", pos, "tag@+0, length@+2, value@+4 of `length` octets, keyed by tag - same layout as ReadOptions")
@@ -746,6 +877,7 @@ func lenRule(c *core.Ctx) {
 			}
 		}
 	}
+	startBad := false
 	for _, l := range p.Loops() {
 		for _, ins := range l.Header.Instrs {
 			ph, isPhi := ins.(*ssa.Phi)
@@ -754,6 +886,9 @@ func lenRule(c *core.Ctx) {
 			}
 			for k, pred := range l.Header.Preds {
 				if !l.Blocks[pred] {
+					if k0, isK := constInt(ph.Edges[k]); !isK || k0 != 0 {
+						startBad = true
+					}
 					continue
 				}
 				d := p.LinOf(ph.Edges[k]).Add(p.LinOf(ph), -1)
@@ -768,7 +903,7 @@ func lenRule(c *core.Ctx) {
 			}
 		}
 	}
-	c.Decide(ok && nr == 1, "C16-SERIAL", key, pos, "adds 4 + len(value) per entry over one range", "Len does not add 4+len(value) for every entry of one range over the map")
+	c.Decide(ok && nr == 1 && !startBad, "C16-SERIAL", key, pos, "starts at 0, adds 4 + len(value) per entry over one range", "Len does not start at 0 and add 4+len(value) for every entry of one range over the map")
 }
 
 // addRule: mutating methods of a map-typed container must not assign to a value receiver.
@@ -833,6 +968,32 @@ func addRule(c *core.Ctx, rel, typ string) {
 				c.Fail("C16-ADD", key, pos, "the method assigns to its value receiver (e.g. to create the map when it is nil): the assignment is lost, so adding to an empty container has no effect")
 			} else {
 				c.OK("C16-ADD", key, pos, "mutation is visible to the caller")
+			}
+			// with a value receiver a store still reaches the caller's map when that map exists: on every path on which
+			// the receiver was found non-nil (or not tested) the map updated is the receiver itself, not a fresh map
+			if fnObj, _ := pkg.TypesInfo.Defs[fd.Name].(*types.Func); !isPtr && fnObj != nil {
+				if sf := c.Prog.SSAFunc(fnObj); sf != nil && len(sf.Params) > 0 {
+					recv := ssa.Value(sf.Params[0])
+					if ps, err := paths.Enumerate(sf, paths.Config{}); err == nil {
+						bad := ""
+						for _, p := range ps {
+							recvNil := false
+							for _, e := range p.Events {
+								switch e.Kind {
+								case paths.EvBranch:
+									if subj, neq, ok := nilTest(e.Cond); ok && e.Resolve(subj) == recv && neq != e.Taken {
+										recvNil = true
+									}
+								case paths.EvInstr:
+									if mu, ok := e.Instr.(*ssa.MapUpdate); ok && !recvNil && e.Resolve(mu.Map) != recv {
+										bad = "on a path where the container exists the entry is stored into another map: adding to a non-empty container is lost"
+									}
+								}
+							}
+						}
+						c.Decide(bad == "", "C16-ADD", key+"#target", pos, "an existing container is updated in place", bad)
+					}
+				}
 			}
 			// through a pointer receiver an empty (nil) container must be created before the store: on every path the
 			// map update is preceded by `*t != nil` established or by `*t = make(...)`
